@@ -1577,6 +1577,7 @@ class StateTie:
         if a.name in self.addr:
             self.ok, self.why = False, 'object-twice-in-a-tree'       # Python aliasing: outside the model
         self.addr[a.name] = list(ad)
+        self.depth_kind = getattr(self, 'depth_kind', {})
         if hasattr(a, 'base_asset'):
             kind = 'scaled'
         elif isinstance(a, StructuredAsset):
@@ -1589,6 +1590,7 @@ class StateTie:
             self.shapes.add('depth>=%d' % min(len(above) + 1, 4))
         if kind == 'linked':
             self.shapes.add('linked')
+        self.depth_kind[a.name] = (kind if kind != 'plain' else 'leaf') + ('' if not above else '@depth%d' % min(len(above), 3))
         j = {'kind': kind, 'p': self.params(a)}
         ks = [self.tree(k, ad + [i], above + [kind]) for i, k in enumerate(self.kids(a))]
         if kind == 'scaled':
@@ -1964,6 +1966,7 @@ def state_execute(case, drv, max_dis=6, version=None):
                     elif not _arr_eq(getattr(exp, 'discount_factors', None), getattr(ro, 'discount_factors', None)):
                         D(st, 'builder %s read discount factors that are not those of wacc %s (model)' % (name, u['disc']))
                     feats.append('state-read:' + T.writer_kind(u['restricted']))
+                    feats.append('state-reader:' + T.depth_kind.get(name, '?'))
         # pointers
         ob = st['obs']
         out['observables'] += 1
@@ -2005,14 +2008,135 @@ def state_execute(case, drv, max_dis=6, version=None):
     return out
 
 
-def gen_state_case(rnd):
-    """histories aimed at the slot logic: windows and waccs everywhere, scaled / structured / order book / storages,
-    two or three grid objects of different horizon (one shared by everything), direct, portfolio, split set-ups and cost samples"""
-    kinds = ['simple', 'contract', 'storage', 'storage', 'orderbook', 'scaled', 'scaled', 'structured', 'structured', 'transport']
-    base = gen.gen_portfolio(rnd, kinds=kinds, tmax=8, tz_prob=0.1, allow_mip=False, max_assets=rnd.choice([2, 3, 4]),
-                             allow_freq=rnd.random() < 0.3, allow_periodic=False, allow_blocks=False)
-    g0 = base['grid']
+# ----- wrappers nested in wrappers, linked assets
+WRAPPER_TYPES = ('ScaledAsset', 'StructuredAsset', 'LinkedAsset')
+NEST_WINDOWS = ['inside', 'inside', 'start_only', 'end_only', 'covering', 'straddle_start', 'straddle_end']
+
+
+def _scale_args(rnd):
+    return {'min_scale': rnd.choice([0.0, 0.0, 0.5]), 'max_scale': rnd.choice([1.0, 2.0, 4.0]), 'norm_scale': rnd.choice([1.0, 2.0, 0.5]),
+            'fix_costs': gen.q8(rnd, 0, 1)}
+
+
+def _slots(base):
+    """every place of the scenario that holds an asset spec: (list or dict holding it, key, spec, spec of the wrapper above or None)"""
+    out = []
+
+    def rec(holder, key, spec, above):
+        out.append((holder, key, spec, above))
+        if 'base' in spec:
+            rec(spec, 'base', spec['base'], spec)
+        for i, b in enumerate(spec.get('inner', [])):
+            rec(spec['inner'], i, b, spec)
+    for i, a in enumerate(base['assets']):
+        rec(base['assets'], i, a, None)
+    return out
+
+
+def _linked_names(spec):
+    """names a linked asset refers to (these inner assets must stay where they are, under their names)"""
+    if spec is None or spec['type'] != 'LinkedAsset':
+        return ()
+    return (spec['args']['asset1_variable'][0], spec['args']['asset2_variable'][0])
+
+
+def nest_wrappers(rnd, base, rounds=(1, 3), window_p=0.5):
+    """WRAPPERS IN WRAPPERS, 1-3 rewritings of the scenario (in place), each one of:
+    a scaled asset OVER a structured / linked asset; an asset wrapped by a structured asset becomes a SCALED asset over it; a structured asset
+    INSIDE a new structured asset (with, sometimes, a further contract at its outer node); an asset that is no wrapper becomes the only
+    inner asset of a new structured asset (so that portfolios without structured assets get one).  New wrappers get, with probability
+    `window_p`, an own window (so that windows are clipped through several levels) and sometimes a wacc.  Returns the list of rewritings."""
+    g = base['grid']
+    T = len(next(iter(base['prices'].values()))) if base['prices'] else _T(g)
+    names = {n for n, _, _ in spec_names(base)}
+    made = []
+
+    def fresh(prefix):
+        i = 1
+        while '%s%d' % (prefix, i) in names:
+            i += 1
+        names.add('%s%d' % (prefix, i))
+        return '%s%d' % (prefix, i)
+
+    def dress(args):
+        if rnd.random() < window_p:
+            gen.put_window(args, gen.window(rnd, g, kinds=NEST_WINDOWS))
+        if rnd.random() < 0.4:
+            args['wacc'] = rnd.choice([0.0, 0.05, 0.1, 0.5])
+        return args
+
+    for _ in range(rnd.randint(*rounds)):
+        slots = _slots(base)
+        structs = [x for x in slots if x[2]['type'] in ('StructuredAsset', 'LinkedAsset') and x[2]['name'] not in _linked_names(x[3])]
+        inner = [x for x in slots if x[3] is not None and x[3]['type'] in ('StructuredAsset', 'LinkedAsset') and x[2]['name'] not in _linked_names(x[3])
+                 and x[2]['type'] not in ('OrderBook',)]
+        plain_top = [x for x in slots if x[3] is None and x[2]['type'] not in WRAPPER_TYPES + ('OrderBook',)]
+        r = rnd.random()
+        if r < 0.3 and structs:
+            holder, key, spec, above = rnd.choice(structs)
+            holder[key] = {'type': 'ScaledAsset', 'name': fresh('scw'), 'base': spec, 'args': dress(_scale_args(rnd))}
+            if 'inner_nodes' in spec:
+                holder[key]['inner_nodes'] = spec['inner_nodes']
+            made.append('scaled-over-' + ('linked' if spec['type'] == 'LinkedAsset' else 'structured'))
+        elif r < 0.6 and inner:
+            holder, key, spec, above = rnd.choice(inner)
+            holder[key] = {'type': 'ScaledAsset', 'name': fresh('scw'), 'base': spec, 'args': dress(_scale_args(rnd))}
+            made.append('scaled-inside-' + ('linked' if above['type'] == 'LinkedAsset' else 'structured'))
+        elif r < 0.85 and structs:
+            holder, key, spec, above = rnd.choice(structs)
+            wrap = {'type': 'StructuredAsset', 'name': fresh('sas'), 'nodes': list(spec['nodes']), 'inner': [spec], 'args': dress({})}
+            if rnd.random() < 0.4:
+                wrap['inner'].insert(rnd.choice([0, 1]), gen.gen_simple_contract(rnd, g, base['prices'], T, fresh('scx'), spec['nodes'][0]))
+            if 'inner_nodes' in spec:
+                wrap['inner_nodes'] = spec['inner_nodes']
+            holder[key] = wrap
+            made.append(('linked' if spec['type'] == 'LinkedAsset' else 'structured') + '-inside-structured')
+        elif plain_top:
+            holder, key, spec, above = rnd.choice(plain_top)
+            holder[key] = {'type': 'StructuredAsset', 'name': fresh('sas'), 'nodes': list(spec['nodes']), 'inner': [spec], 'args': dress({})}
+            made.append('structured-around-an-asset')
+    return made
+
+
+def linked_base(rnd):
+    """scenario around a LINKED asset (harness/comp/slp.py `gen_linked_portfolio`: a CHP with `on` variables and a second unit that may
+    dispatch only while the CHP has been on for time_back), waccs on every level; windows only rarely (a linked asset whose wrapped assets
+    have differing windows raises: known finding F-09e)"""
+    from . import slp as SLP
+    base = SLP.gen_linked_portfolio(rnd)
     for a in scen.all_asset_specs(base):
+        if rnd.random() < 0.5:
+            a['args']['wacc'] = rnd.choice([0.0, 0.05, 0.1, 0.5])
+        if a['type'] != 'LinkedAsset' and rnd.random() < 0.08:
+            gen.put_window(a['args'], gen.window(rnd, base['grid'], kinds=['covering', 'straddle_end', 'end_only', 'inside']))
+    return base
+
+
+def gen_nested_case(rnd):
+    """slot-logic histories (as `gen_state_case`) over portfolios with WRAPPERS NESTED IN WRAPPERS (scaled over structured, scaled /
+    structured inside structured, to depth 4) and - 3 of 10 cases - a LINKED asset (alone, under a scaled asset, inside a structured asset,
+    with a scaled asset among its wrapped assets); set-up and set_timegrid calls name objects on every level of the trees"""
+    if rnd.random() < 0.3:
+        case = gen_state_case(rnd, nest=lambda r, b: nest_wrappers(r, b, rounds=(0, 2), window_p=0.15), base=linked_base(rnd))
+    else:
+        case = gen_state_case(rnd, nest=nest_wrappers)
+    case['stream'] = 'nested'
+    return case
+
+
+def gen_state_case(rnd, nest=None, base=None):
+    """histories aimed at the slot logic: windows and waccs everywhere, scaled / structured / order book / storages,
+    two or three grid objects of different horizon (one shared by everything), direct, portfolio, split set-ups and cost samples
+    (`nest`: a rewriting of the scenario applied before the history is drawn; `base`: a scenario to use instead of a drawn one)"""
+    kinds = ['simple', 'contract', 'storage', 'storage', 'orderbook', 'scaled', 'scaled', 'structured', 'structured', 'transport']
+    if base is None:
+        base = gen.gen_portfolio(rnd, kinds=kinds, tmax=8, tz_prob=0.1, allow_mip=False, max_assets=rnd.choice([2, 3, 4]),
+                                 allow_freq=rnd.random() < 0.3, allow_periodic=False, allow_blocks=False)
+        dress = True
+    else:
+        dress = False
+    g0 = base['grid']
+    for a in (scen.all_asset_specs(base) if dress else []):
         if a['type'] == 'OrderBook':
             if rnd.random() < 0.5:
                 a['args']['wacc'] = rnd.choice([0.05, 0.1, 0.5])
@@ -2024,6 +2148,7 @@ def gen_state_case(rnd):
             gen.put_window(args, gen.window(rnd, g0, kinds=['inside', 'start_only', 'end_only', 'covering']))
         if rnd.random() < 0.6:
             args['wacc'] = rnd.choice([0.0, 0.05, 0.1, 0.5])
+    nested = nest(rnd, base) if nest is not None else None
     grids = [dict(g0)]
     step = pd.Timedelta(seconds=g0['step_s'])
     s0, e0, T0 = pd.Timestamp(g0['start']), pd.Timestamp(g0['end']), g0['T_nominal']
@@ -2101,7 +2226,10 @@ def gen_state_case(rnd):
             for n in top:
                 tracked[n] = gid
             tracked['__pf__'] = gid
-    return {'base': base, 'grids': grids, 'prices': prices, 'history': hist, 'state_case': True}
+    case = {'base': base, 'grids': grids, 'prices': prices, 'history': hist, 'state_case': True}
+    if nested is not None:
+        case['nested'] = nested
+    return case
 
 
 # ===================================================================== what the property module registers (harness/props/c10.py imports these)
